@@ -5,6 +5,11 @@
 #![allow(dead_code)]
 use std::borrow::Borrow;
 
+/// model limit: at most CAP entries.  The search loops run over `0..CAP` with an early exit, so that their trip
+/// count is a constant for CBMC even under a large global unwind bound (a `while i < self.items.len()` loop is
+/// otherwise unrolled up to that bound because the Vec's length is not a literal).
+const CAP: usize = 8;
+
 #[derive(Debug, Clone, Default)]
 pub struct VMap<K, V> {
     items: Vec<(K, V)>,
@@ -17,8 +22,11 @@ impl<K: PartialEq, V> VMap<K, V> {
     pub fn is_empty(&self) -> bool { self.items.is_empty() }
     /// like HashMap::insert: returns the previous value of an existing key (and keeps the old key)
     pub fn insert(&mut self, k: K, v: V) -> Option<V> {
+        let n = self.items.len();
+        assert!(n < CAP, "VMap model: more than CAP entries");
         let mut i = 0;
-        while i < self.items.len() {
+        while i < CAP {
+            if i >= n { break; }
             if self.items[i].0 == k {
                 return Some(std::mem::replace(&mut self.items[i].1, v));
             }
@@ -31,8 +39,10 @@ impl<K: PartialEq, V> VMap<K, V> {
     where
         K: Borrow<Q>,
     {
+        let n = self.items.len();
         let mut i = 0;
-        while i < self.items.len() {
+        while i < CAP {
+            if i >= n { break; }
             if self.items[i].0.borrow() == k {
                 return Some(&self.items[i].1);
             }
@@ -50,8 +60,10 @@ impl<K: PartialEq, V> VMap<K, V> {
     where
         K: Borrow<Q>,
     {
+        let n = self.items.len();
         let mut i = 0;
-        while i < self.items.len() {
+        while i < CAP {
+            if i >= n { break; }
             if self.items[i].0.borrow() == k {
                 return Some(self.items.remove(i).1);
             }
